@@ -76,3 +76,16 @@ package model
 //@   props C08 C10 C11
 //@   trusted
 //@   pure
+
+// Retry (C10): the scheduler node rebuilt from a recorded node has the recorded step and the recorded state.
+//@ fn errFromText(err) (r)
+//@   props C10
+//@   modifies heap(alloc)
+//@   ensures (r == nil) <==> (err == "")
+
+//@ fn (*Node).ToNode(n) (r)
+//@   props C10
+//@   modifies heap(alloc)
+//@   ensures [C10 retry_node_is_the_recorded_step_and_state] r != nil && !wasAllocated(r) && r.data.Step == n.Step &&
+//@        r.data.State.Status == n.Status && r.data.State.Log == n.Log && r.data.State.RetryCount == n.RetryCount &&
+//@        r.data.State.DoneCount == n.DoneCount && ((r.data.State.Error == nil) <==> (n.Error == "")) && r.id == 0
